@@ -91,6 +91,13 @@ CHECKS = {
   design_ref="DESIGN.md §4 C06",
   technique="fault injection at every persistent-effect boundary (trait wrapper) over proptest-generated scenarios + reopen invariants",
   note=TRUST + "; LMDB commit atomic+durable; process death modelled at effect boundaries by unwinding and dropping the instance; a panic provoked by an injected fault counts as a crash, not as a violation"),
+ "C07": dict(
+  engine="world",
+  category="exploration",
+  text="Victim wallets in generated states (pending sends incl. late-locked, invoices, receives, two accounts) receive sequences of 1..8 JSON-RPC requests through the real foreign listener handler (ForeignAPIHandlerV2::post with the production middleware): check_version, build_coinbase with every existing key id, receive_tx with honest / mutated / synthetic slates and replays, finalize_tx with forged or mutated replies. Every call is bracketed by typed + raw-DB snapshots: unauthorised calls must not change, reserve, spend or delete anything nor consume a private context nor lower spendable; a successful receive adds exactly one output and one entry and is refused the second time.",
+  design_ref="DESIGN.md §4 C07",
+  technique="model-based victim states + adversarial request sequences (proptest) + snapshot-diff oracle per call",
+  note=TRUST + "; authorised = finalize_tx carrying the cooperating wallet's own honest participant entry (judged by C02); r_addr/dest never set (outbound network)"),
 }
 
 hooks_commits = subprocess.run(["git", "-C", "/repo", "log", "--format=%h %s"], stdout=subprocess.PIPE, text=True).stdout.splitlines()
